@@ -439,6 +439,9 @@ struct Piece {
 }
 
 const FB0: u64 = 0x5EED_0000_0000_0001;
+const FB1: u64 = 0x0DDB_A11C_0FFE_E123;
+/// behaviour of the real code under two fixed pseudo-random continuations
+type Sig = [Obs; 2];
 const GOFF: u64 = 0x0005_A5A5_A5A5_A000;
 const KMAX: u32 = 10; // trailing-ones classes 0..KMAX-1 individually, >= KMAX as one tail class
 const TWO64: f64 = 18446744073709551616.0;
@@ -500,11 +503,37 @@ impl<'a> Ex<'a> {
     fn obs(&mut self, script: &[u64]) -> Obs {
         self.obs_fb(script, FB0)
     }
-    fn sig(&mut self, pre: &mut Vec<u64>, w: u64) -> Obs {
+    fn sig(&mut self, pre: &mut Vec<u64>, w: u64) -> Sig {
         pre.push(w);
-        let o = self.obs(pre);
+        let o = [self.obs_fb(pre, FB0), self.obs_fb(pre, FB1)];
         pre.pop();
         o
+    }
+    /// is `so` what discarding the word and drawing again would give?
+    fn looks_retry(so: &Sig, base: &Sig) -> bool {
+        (0..2).all(|k| so[k].out == base[k].out && so[k].cons == base[k].cons + 1)
+    }
+    /// the word `w` at this position is ignored whatever the next word is
+    fn retry_word(&mut self, pre: &mut Vec<u64>, w: u64, base: &Sig, reps: &[u64]) -> bool {
+        let so = self.sig(pre, w);
+        if !Self::looks_retry(&so, base) {
+            return false;
+        }
+        let mut tested = 0;
+        for r in reps.iter() {
+            pre.push(w);
+            let with = self.sig(pre, *r);
+            pre.pop();
+            let without = self.sig(pre, *r);
+            if !Self::looks_retry(&with, &without) {
+                return false;
+            }
+            tested += 1;
+            if tested >= 4 {
+                break;
+            }
+        }
+        tested > 0
     }
 
     fn note_boundary(&mut self, b: u64) {
@@ -512,7 +541,7 @@ impl<'a> Ex<'a> {
     }
 
     /// all points in (lo, hi] at which the behaviour changes (as far as sampled), ascending
-    fn breaks(&mut self, pre: &mut Vec<u64>, lo: u64, olo: Obs, hi: u64, ohi: Obs, out: &mut Vec<(u64, Obs)>, use_cache: bool) -> Result<(), String> {
+    fn breaks(&mut self, pre: &mut Vec<u64>, lo: u64, olo: Sig, hi: u64, ohi: Sig, out: &mut Vec<(u64, Sig)>, use_cache: bool) -> Result<(), String> {
         if olo == ohi {
             return Ok(());
         }
@@ -583,15 +612,16 @@ impl<'a> Ex<'a> {
 
     fn explore(&mut self, pre: &mut Vec<u64>, w: f64) -> Result<Rc<Tree>, String> {
         self.ct.nodes += 1;
-        let base = self.obs(pre);
+        let base0 = self.obs(pre);
         let d = pre.len();
-        if (base.cons as usize) == d {
+        if (base0.cons as usize) == d {
             self.ct.leaves += 1;
-            return Ok(Rc::new(Tree::Leaf(base.out)));
+            return Ok(Rc::new(Tree::Leaf(base0.out)));
         }
-        if (base.cons as usize) < d {
-            return Err(format!("only {} of {} scripted words were requested", base.cons, d));
+        if (base0.cons as usize) < d {
+            return Err(format!("only {} of {} scripted words were requested", base0.cons, d));
         }
+        let base: Sig = [base0, self.obs_fb(pre, FB1)];
         if w < self.eps {
             return Ok(Rc::new(Tree::Trunc));
         }
@@ -602,7 +632,7 @@ impl<'a> Ex<'a> {
         let mut pts: Vec<u64> = vec![0];
         pts.extend((0..16u64).map(|j| (j << 60) | GOFF));
         pts.push(u64::MAX);
-        let sg: Vec<Obs> = pts.clone().iter().map(|p| self.sig(pre, *p)).collect();
+        let sg: Vec<Sig> = pts.clone().iter().map(|p| self.sig(pre, *p)).collect();
         // does the behaviour depend on the low bits of the word (next_u64().trailing_ones())?
         let g3 = pts[4];
         let low1 = self.sig(pre, g3 | 1);
@@ -610,50 +640,62 @@ impl<'a> Ex<'a> {
         if low1 != sg[4] || low12 != sg[4] {
             return self.explore_ones(pre, w, base);
         }
-        let mut starts: Vec<(u64, Obs)> = vec![(0, sg[0])];
+        let mut starts: Vec<(u64, Sig)> = vec![(0, sg[0])];
         for i in 0..pts.len() - 1 {
             self.breaks(pre, pts[i], sg[i], pts[i + 1], sg[i + 1], &mut starts, true)?;
         }
         // work list of candidate pieces
-        let mut todo: VecDeque<(u64, u128, Obs)> = VecDeque::new();
+        let mut todo: VecDeque<(u64, u128, Sig)> = VecDeque::new();
         for i in 0..starts.len() {
             let end: u128 = if i + 1 < starts.len() { starts[i + 1].0 as u128 } else { 1u128 << 64 };
             todo.push_back((starts[i].0, end, starts[i].1));
         }
         let reps: Vec<u64> = starts.iter().map(|s| s.0).collect();
-        let mut done: Vec<(u64, u128, Obs, bool, Option<Rc<Tree>>)> = vec![];
+        let mut done: Vec<(u64, u128, Sig, bool, Option<Rc<Tree>>)> = vec![];
         let mut splits = 0;
         while let Some((s, e, so)) = todo.pop_front() {
             // retry piece (the word is discarded and drawn again)?
-            if so.out == base.out && so.cons == base.cons + 1 {
-                let mut is_retry = true;
-                let mut tested = 0;
-                for r in reps.iter() {
-                    if *r == s {
-                        continue;
-                    }
-                    pre.push(s);
-                    let with = self.sig(pre, *r);
-                    pre.pop();
-                    let without = self.sig(pre, *r);
-                    if with.out != without.out || with.cons != without.cons + 1 {
-                        is_retry = false;
-                        break;
-                    }
-                    tested += 1;
-                    if tested >= 4 {
+            if Self::looks_retry(&so, &base) {
+                let others: Vec<u64> = reps.iter().cloned().filter(|r| *r != s).collect();
+                let span = e - s as u128;
+                let probes: Vec<u64> = [0u128, span / 4, span / 2, span / 2 + span / 4, span - 1].iter().map(|o| (s as u128 + o) as u64).collect();
+                let mut all = true;
+                for (i, w) in probes.iter().enumerate() {
+                    // full test at both ends and in the middle, light test elsewhere
+                    let ok = if i % 2 == 0 { self.retry_word(pre, *w, &base, &others) } else { Self::looks_retry(&self.sig(pre, *w), &base) };
+                    if !ok {
+                        all = false;
+                        if i > 0 {
+                            // the piece is not homogeneous: cut it where the behaviour stops being "retry"
+                            let (mut lo, mut hi) = (s, *w);
+                            while hi - lo > 1 {
+                                let m = lo + (hi - lo) / 2;
+                                if Self::looks_retry(&self.sig(pre, m), &base) {
+                                    lo = m
+                                } else {
+                                    hi = m
+                                }
+                            }
+                            splits += 1;
+                            self.ct.splits += 1;
+                            if splits > 64 {
+                                return Err(format!("draw {}: more than 64 piece splits", d));
+                            }
+                            self.note_boundary(hi);
+                            let so2 = self.sig(pre, hi);
+                            todo.push_front((hi, e, so2));
+                            todo.push_front((s, hi as u128, so));
+                        }
                         break;
                     }
                 }
-                if is_retry && tested > 0 {
-                    // the whole piece must behave so
-                    let last = (e - 1) as u64;
-                    let ol = self.sig(pre, last);
-                    if ol == so {
-                        self.ct.retry_pieces += 1;
-                        done.push((s, e, so, true, None));
-                        continue;
-                    }
+                if all {
+                    self.ct.retry_pieces += 1;
+                    done.push((s, e, so, true, None));
+                    continue;
+                }
+                if todo.front().map(|f| f.0 == s).unwrap_or(false) {
+                    continue;
                 }
             }
             let measure = (e - s as u128) as f64 / TWO64;
@@ -752,12 +794,12 @@ impl<'a> Ex<'a> {
     }
 
     /// a draw whose effect depends on the number of trailing one bits of the word
-    fn explore_ones(&mut self, pre: &mut Vec<u64>, w: f64, _base: Obs) -> Result<Rc<Tree>, String> {
+    fn explore_ones(&mut self, pre: &mut Vec<u64>, w: f64, _base: Sig) -> Result<Rc<Tree>, String> {
         self.ct.ones_nodes += 1;
         let d = pre.len();
         let highs: [u64; 4] = [0x5A5A_5A5A_5A5A_5A5A, 0xC3C3_0F0F_3C3C_F0F0, 0x0123_4567_89AB_CDEF, 0xFEDC_BA98_7654_3210];
         let mut pieces: Vec<Piece> = vec![];
-        let mut sigs: Vec<Obs> = vec![];
+        let mut sigs: Vec<Sig> = vec![];
         for k in 0..=KMAX {
             let rep = ones_rep(highs[0], k);
             let so = self.sig(pre, rep);
